@@ -23,7 +23,14 @@ type opv struct {
 	err error
 }
 
-func (o opv) Operation() (interface{}, error) { return o.v, o.err }
+func (o opv) Operation() (interface{}, error) {
+	if o.err == errBoom {
+		panic("boom") // the Processor turns a panicking operation into that operation's error result
+	}
+	return o.v, o.err
+}
+
+var errBoom = errors.New("the operation panics")
 
 var errOp = errors.New("operation failed")
 
@@ -44,7 +51,10 @@ func bad(r *vrt.Result) (string, string) {
 
 // processor driver: w workers, queue capacity c, result buffer b, n operations
 // (the k-th operation fails when errAt == k).
-func processor(w, c, b, n, errAt int) func() vrt.Run {
+func processor(w, c, b, n, errAt int) func() vrt.Run { return processorP(w, c, b, n, errAt, -1) }
+
+// processorP: additionally the panicAt-th operation panics.
+func processorP(w, c, b, n, errAt, panicAt int) func() vrt.Run {
 	return func() vrt.Run {
 		var got []string
 		var extra string
@@ -59,6 +69,9 @@ func processor(w, c, b, n, errAt int) func() vrt.Run {
 					var e error
 					if i == errAt {
 						e = errOp
+					}
+					if i == panicAt {
+						e = errBoom
 					}
 					batch = append(batch, opv{i + 1, e})
 				}
@@ -92,6 +105,10 @@ func processor(w, c, b, n, errAt int) func() vrt.Run {
 				var e error
 				if i == errAt {
 					e = errOp
+				}
+				if i == panicAt {
+					want = append(want, fmt.Sprint(nil, fmt.Errorf("concurrent: processor panic: %v", "boom")))
+					continue
 				}
 				want = append(want, fmt.Sprint(i+1, e))
 			}
@@ -284,6 +301,11 @@ func drivers(quick bool) []conc.Driver {
 	for _, p := range pcs {
 		add(fmt.Sprintf("processor-w%d-c%d-b%d-n%d-e%d", p.w, p.c, p.b, p.n, p.e), processor(p.w, p.c, p.b, p.n, p.e))
 	}
+	// an operation that panics: its result carries the error the Processor makes of the panic, every other
+	// operation its own; the worker that ran it is gone afterwards, the others go on
+	add("processor-w1-c1-b1-n1-panic0", processorP(1, 1, 1, 1, -1, 0))
+	add("processor-w2-c2-b2-n2-panic1", processorP(2, 2, 2, 2, -1, 1))
+	add("processor-w2-c0-b0-n2-panic0", processorP(2, 0, 0, 2, -1, 0))
 	if quick {
 		add("map-s1-t3-c1", mapper(1, 3, 1)) // fewer elements than half the threads (thorough has every t3 driver)
 	}
